@@ -173,6 +173,26 @@ func (tr *fnTrans) applyContractSig(c *Contract, key string, args []Term, sig *t
 	}
 	tr.counters["call:"+key]++
 	k := tr.counters["call:"+key]
+	// hints: facts about the state just before this call, proved and then assumed
+	if tr.c != nil {
+		short := key
+		if i := strings.Index(short, "."); i >= 0 {
+			short = short[i+1:]
+		}
+		for _, site := range []string{fmt.Sprintf("%s#%d", key, k), fmt.Sprintf("%s#%d", short, k)} {
+			for i, h := range tr.c.Hints[site] {
+				henv := tr.env()
+				henv.oldHeap = map[string]string{}
+				t, err := tr.spec(h.E, henv)
+				if err != nil {
+					tr.errorf("%s: hint %s: %v", tr.key, h.Src, err)
+					continue
+				}
+				tr.oblige("hint", fmt.Sprintf("hint[%s:%s]", site, labelOr(h.Label, i)), t.S, h.Src, pos)
+				tr.hyp(implies(in0, t.S))
+			}
+		}
+	}
 	for i, r := range c.Requires {
 		t, err := tr.spec(r.E, pre)
 		if err != nil {
